@@ -177,12 +177,48 @@ def versions_for(chk, quick_core=(1, 2, 3, 4, 5, 6, 7), extra=4):
     if chk.tier == 'thorough':
         return list(range(40))
     vs = set(v - 1 for v in quick_core)
-    pool = [v for v in range(7, 40)]
-    big = [v for v in pool if v >= 29]
-    vs.add(chk.rng.choice(big))
+    pool = [v for v in range(7, 39)]
+    vs.add(39)                      # the largest symbol: every coordinate up to 176 is exercised in the quick tier too
     while len(vs) < len(quick_core) + extra:
         vs.add(chk.rng.choice(pool))
     return sorted(vs)
+
+
+def job_blank(job):
+    """the blank symbol has the version as its only input: default::create_matrix executed concretely for a version and
+    compared with the oracle (labels, function-module values, tail).  Exhaustive over its finite input domain; this is a
+    supplement to the symbolic runs (which cover payload/level/mask dependence), not a solver verdict."""
+    v, pid = job
+    prog = worker_prog()
+    res = {'evaluations': 0, 'obligations': 0, 'discharged': 0, 'failures': [], 'nontrivial': [], 'samples': [],
+           'validation': {'cases': 0, 'disagreements': 0}, 'vacuity': 0}
+    I = M.Interp(prog)
+    qr = I.call_fn(prog.resolve('default::create_matrix'), [v])
+    g = iso.geometry(v + 1)
+    n = g['n']
+    bad = []
+    if qr[1] != n:
+        bad.append('size %r' % (qr[1],))
+    else:
+        for r in range(n):
+            for c in range(n):
+                b = qr[0][r * n + c][0]
+                lab = g['label'][r][c]
+                if (b & 0xFE) != lab:
+                    bad.append('label of (%d,%d) is %s, ISO region %s' % (r, c, iso.LABEL_NAMES.get(b & 0xFE, b), iso.LABEL_NAMES[lab]))
+                elif lab not in (iso.DATA, iso.FORMAT) and (b & 1) != g['value'][r][c]:
+                    bad.append('%s module (%d,%d) is %d' % (iso.LABEL_NAMES[lab], r, c, b & 1))
+        if any(qr[0][i][0] != 0 for i in range(n * n, len(qr[0]))):
+            bad.append('backing array beyond the square is touched')
+    res['obligations'] = n * n + 1
+    res['evaluations'] = n * n + 1
+    res['discharged'] = n * n + 1 - len(bad)
+    if bad:
+        res['failures'].append({'key': '%s/blank-symbol' % pid, 'confirmed': True,
+                                'what': 'blank symbol of version %d: %s' % (v + 1, bad[0]), 'replay': {'request': 'blank %d' % v}})
+    res['queries'] = {'issued': 0, 'unsat': 0, 'sat': 0, 'unknown': 0, 'syntactic': n * n + 1}
+    res.update(interp_stats(I))
+    return res
 
 
 def run_matrix_jobs(chk, props, nolut_versions=None):
@@ -195,6 +231,13 @@ def run_matrix_jobs(chk, props, nolut_versions=None):
     jobs.sort(key=lambda j: -(j[0] + (30 if j[1] == 'nolut' else 0)))
     native_path = chk.ov.native(chk.features)
     chk.jobs(job_version, jobs, extra={'native': native_path})
+    if chk.pid in ('C03', 'C15'):
+        rest = [v for v in range(40) if v not in vs]
+        if rest:
+            chk.jobs(job_blank, [(v, chk.pid) for v in rest], extra={'native': native_path})
+            chk.cov['blank_symbol_versions_concrete'] = [v + 1 for v in rest]
+            chk.bounds.append('blank symbol (default::create_matrix, whose only input is the version) executed concretely and compared with the oracle for the '
+                              'remaining versions %s - exhaustive over that finite domain, a supplement and not a solver verdict' % [v + 1 for v in rest])
     chk.cov['versions'] = [v + 1 for v in vs]
     chk.cov['nolut_versions'] = [v + 1 for v in nolut_versions]
     chk.bounds += [
